@@ -247,6 +247,16 @@ func (r *Run) applyContract(st *State, fr *Frame, x *ssa.Call, callee *ssa.Funct
 		r.oblige(st, fmt.Sprintf("call(%s).requires%d", cname, c.Ord), props, r.v.pos(x.Pos()), g)
 		st.assume(g)
 	}
+	// termination of recursion: a call to the function under verification must decrease its measure
+	if callee != nil && callee == r.fn && fr.depth == 0 {
+		for _, c := range spec.ClausesOf("decreases") {
+			m1 := env.evalInt(c.Expr)
+			cur := r.specEnv(st, fr, "pre")
+			cur.st = fr.entry
+			m0 := cur.evalInt(c.Expr)
+			r.oblige(st, "decreases", c.Props, r.v.pos(x.Pos()), And(Ge(m0, IntLit(0)), Lt(m1, m0)))
+		}
+	}
 	pre := st.clone()
 	// result
 	var res *Val
